@@ -43,6 +43,7 @@ func (g G) uni(n int, l string) int {
 	}
 	return int(((uint64(x) * 0x9E3779B97F4A7C15) >> 29) % uint64(n))
 }
+
 // cursor draws a SortId argument: none, or a stored sort id (+0/+1), so that "sort_id < ?" is decided by
 // values that exist (newly inserted rows of the same batch are always beyond it)
 func (g G) cursor(tbl string) *int64 {
